@@ -343,6 +343,7 @@ func valEnvOf(vals map[string]*val.Val) *val.Env {
 
 // runOn compiles and runs src on one back end, in fresh engine and environment objects.
 func runOn(backend, src string, vars []envVar, vals map[string]*val.Val, withFns bool) outcome {
+	mark(fmt.Sprintf("program %q on back end %s (withFns=%v)", src, backend, withFns))
 	tl := &traceLog{}
 	var out outcome
 	var cl yae.Callable
